@@ -34,7 +34,8 @@ ASSUMPTIONS = ["spawn contract: everything travels by value through pickle excep
                "Value, which are the same memory in both processes",
                "if the spawn stub cannot be made faithful this claim is withdrawn, not weakened"]
 
-FMTS = ["B", "H", "I", "Q", "b", "h", "i", "q", "x", "?", "3B", "3H", "2H", "3I", "5b"]
+FMTS = ["B", "H", "I", "Q", "b", "h", "i", "q", "x", "?", "3B", "3H", "2H", "3I", "5b",
+        "l", "L", "d", "f"]      # native long (8 bytes here), double, float
 _MOD = sys.modules[__name__]
 
 
@@ -73,6 +74,8 @@ def shape(fmt, x):
         return tuple(shape(fmt[-1], (x >> (5 * i)) ^ (i * 0x9e3779b1)) for i in range(int(fmt[:-1])))
     if fmt == "?":
         return bool(x & 1)
+    if fmt in "df":
+        return float((x % 4000001) - 2000000) / 8     # exactly representable in both
     if fmt == "x":
         # multiples of 1/4: exactly representable, so the decimal->fixed conversion
         # (C02's subject: it truncates instead of rounding) cannot interfere
